@@ -34,3 +34,6 @@ Definition runRescale (big : float) (tab : list (float * float)) (integ : nat) (
   let '(fl, cs) := rescale_all FNum (lgtab tab) big (mkFl integ whs eoss sm w1 w2 rc)
                      (map (fun q => let '(o, l, ps) := q in mkVC o l (unflat6 ps)) cfgs) in
   [b2f (warn1 fl); b2f (warn2 fl); b2f (recalc fl)] ++ flat_map (fun c => vc_lres c :: flat6 (vc_ps c)) cs.
+
+Definition runVar2tp G ms xs ys zs wx wy wz ax ay az bx by_ bz i : list float :=
+  let '(a, b, c) := grav_var2_tp FNum G (mkps ms xs ys zs) (wx, wy, wz) (ax, ay, az) (bx, by_, bz) i in [a; b; c].
